@@ -271,7 +271,7 @@ class Interp:
             if name in ("calcsize", "struct.calcsize"):
                 import struct
                 return struct.calcsize(*args)
-            if isinstance(f, ast.Attribute) and f.attr in ("to_bytes", "join", "get", "append", "extend", "reverse", "items", "keys", "values", "hex"):
+            if isinstance(f, ast.Attribute) and f.attr in ("to_bytes", "join", "get", "append", "extend", "reverse", "items", "keys", "values", "hex", "split", "encode", "ljust"):
                 recv = self.ev(f.value, loc)
                 r = getattr(recv, f.attr)(*args, **kw)
                 return list(r) if f.attr in ("items", "keys", "values") else r
@@ -401,6 +401,8 @@ class ObjInterp(Interp):
                 return o.attrs[e.attr]
             m = self.method(o.cname, e.attr)
             if m is not None:
+                if any(isinstance(dc, ast.Name) and dc.id == "property" for dc in m.decorator_list):
+                    return self.run(m, [o])
                 return ("partial", m, [o], {})
             r = self.class_const(o.cname, e.attr)
             if r is not None:
@@ -1098,6 +1100,53 @@ def gen_Sb31Consts():
         meta[nm] = "executed" if ok else "sentinel"
         L.append(f"/-- (CMAC key, derivation constant, access rights, mode, key length) that reach `_get_key_derivation_data` from {doc}: by execution -/")
         L.append(f"def {nm} ({kp} : Bytes) ({cp} key_length kdk_access_rights : Nat) : Bytes × Nat × Nat × Nat × Nat := {body}")
+    # ---- header layout and description adjustment BY EXECUTION of SecureBinary31Header.export / _adjust_description on marker values
+    # (every field a distinct byte pattern: one sample pins down order, widths and byte order of a fixed layout)
+    itH = ObjInterp(img, {"get_hash_length": lambda h: h}, cls="SecureBinary31Header")
+    HM = dict(flags=0xA1A2A3A4, block_count=0xB1B2B3B4, timestamp=0xC1C2C3C4C5C6C7C8, firmware_version=0xD1D2D3D4,
+              image_total_length=0xE1E2E3E4, image_type=6, description=bytes(range(0x30, 0x40)), hash_type=32)
+    sample = None
+    try:
+        ho = _Obj("SecureBinary31Header")
+        ho.attrs.update(HM)
+        ex = itH.method("SecureBinary31Header", "export")
+        if ex is None:
+            raise Untr("SecureBinary31Header.export not found")
+        r = outcome(lambda: itH.run(ex, [ho]))
+        if r[0] != "ok" or not isinstance(r[1], bytes):
+            raise Untr(f"export: {r}")
+        sample = r[1]
+    except (Untr, PyRaise, NotConst) as exc:
+        note("SecureBinary31Header.export (executed)", exc)
+    meta["hdrSample"] = "executed" if sample is not None else "sentinel"
+    L.append("/-- `SecureBinary31Header.export()` EXECUTED for flags 0xA1A2A3A4, block_count 0xB1B2B3B4, SHA-256, timestamp 0xC1..C8, "
+             "firmware_version 0xD1D2D3D4, image_total_length 0xE1E2E3E4, image_type 6, description 0x30..0x3F -/")
+    L.append(f"def hdrSample : Bytes := [{', '.join(map(str, sample)) if sample is not None else ''}]")
+    rows = []
+    try:
+        adj = itH.method("SecureBinary31Header", "_adjust_description")
+        if adj is None:
+            raise Untr("_adjust_description not found")
+        for n in range(0, 21):
+            text = "".join(chr(0x41 + i) for i in range(n))
+            r = outcome(lambda: itH.run(adj, [_Obj("SecureBinary31Header"), text or None]))
+            if r[0] != "ok" or not isinstance(r[1], bytes):
+                raise Untr(f"_adjust_description({n} chars): {r}")
+            rows.append((n, r[1]))
+    except (Untr, PyRaise, NotConst) as exc:
+        note("_adjust_description (executed)", exc)
+        rows = []
+    meta["descTable"] = "executed" if rows else "sentinel"
+    L.append("/-- `_adjust_description` EXECUTED on the descriptions \"\", \"A\", \"AB\", … of 0..20 characters: (length, result) -/")
+    L.append("def descTable : List (Nat × Bytes) := [" + ", ".join(f"({n}, [{', '.join(map(str, b))}])" for n, b in rows) + "]")
+    # ---- every command class: the classes of commands.py that derive (transitively) from BaseCmd and have no subclass
+    bases = {n.name: [b.id for b in n.bases if isinstance(b, ast.Name)] for n in cmd.body if isinstance(n, ast.ClassDef)}
+
+    def derives(cn, seen=()):
+        return cn == "BaseCmd" or any(derives(b, seen + (cn,)) for b in bases.get(cn, []) if b not in seen)
+
+    leaves = sorted(cn for cn in bases if cn != "BaseCmd" and derives(cn) and not any(cn in bs for bs in bases.values()))
+    L.append("def cmdLeafClasses : List String := [" + ", ".join(f'"{x}"' for x in leaves) + "]  -- concrete command classes of commands.py (descendants of BaseCmd without subclasses)")
     L += ["", "end SpsdkVerif.Generated.Sb31Consts"]
     emit("Sb31Consts", "\n".join(L) + "\n", meta)
 
